@@ -307,6 +307,26 @@ func (s scenario) run(root string, id int) []any {
 	case s.change == "stray":
 		os.MkdirAll(filepath.Join(dir, "graphs"), 0o755)
 		os.WriteFile(filepath.Join(dir, "graphs", "stray.jsonl"), []byte("{}\n"), 0o644)
+	case strings.HasPrefix(s.change, "stray:"):
+		// a file no checkpoint names, spelled like the protocol's own files: a temporary of a shard far beyond the next one
+		// (the next shard's own temporary is legitimately removed by a resume), a fragment far beyond the committed ones, a
+		// second manifest temporary - placed in the deepest graph directory the interrupted run created
+		where := filepath.Join(dir, "graphs")
+		os.MkdirAll(where, 0o755)
+		if ents, _ := os.ReadDir(where); len(ents) > 0 {
+			for _, en := range ents {
+				if en.IsDir() {
+					where = filepath.Join(where, en.Name())
+					break
+				}
+			}
+		}
+		name := map[string]string{"stray:tmp": "nodes-000099.jsonl.tmp", "stray:edgetmp": "edges-000099.jsonl.tmp",
+			"stray:shard": "nodes-000099.jsonl", "stray:roottmp": "manifest.json.bak.tmp"}[s.change]
+		if s.change == "stray:roottmp" {
+			where = dir
+		}
+		os.WriteFile(filepath.Join(where, name), []byte("{}\n"), 0o644)
 	}
 	changed := s.change
 	if changed == "" {
@@ -314,6 +334,9 @@ func (s scenario) run(root string, id int) []any {
 	}
 	if strings.HasPrefix(changed, "options") {
 		changed = "options"
+	}
+	if strings.HasPrefix(changed, "stray") {
+		changed = "stray"
 	}
 	r = runChild(s.cfg, dir, true, s.K2, 0, shard, extra, resumeOverride)
 	ev = runEv{E: "run", Hid: id, Kind: "resume", Changed: changed, CrashAt: s.K2, Point: r.Point, OK: r.OK, Err: r.Err, Dir: Project(dir), Src: src.Graphs}
@@ -397,7 +420,8 @@ func Explore(args []string) {
 					}
 				}
 				optKinds := []string{"options:shard", "options:batch", "options:codec", "options:salt", "options:scrub", "options:level"}
-				for _, ch := range []string{optKinds[(k+ci+*seed)%len(optKinds)], "source", "stray"} {
+				strayKinds := []string{"stray:tmp", "stray:edgetmp", "stray:shard", "stray:roottmp"}
+				for _, ch := range []string{optKinds[(k+ci+*seed)%len(optKinds)], "source", "stray", strayKinds[(k+ci+*seed)%len(strayKinds)]} {
 					if *depth2 == "all" || (k+ci+*seed)%4 == 0 {
 						scens = append(scens, scenario{"refuse-" + strings.SplitN(ch, ":", 2)[0], cfg, k, 0, 0, ch})
 					}
@@ -411,10 +435,11 @@ func Explore(args []string) {
 				}
 			}
 			// every identity option is changed at a few crash points of every configuration (early, middle, late)
-			for _, ch := range []string{"options:shard", "options:batch", "options:codec", "options:salt", "options:scrub", "options:level"} {
+			for _, ch := range []string{"options:shard", "options:batch", "options:codec", "options:salt", "options:scrub", "options:level",
+				"stray:tmp", "stray:edgetmp", "stray:shard", "stray:roottmp"} {
 				for _, k := range []int{1 + n/4, 1 + n/2, n - 1} {
 					if k >= 1 && k <= n {
-						scens = append(scens, scenario{"refuse-options", cfg, k, 0, 0, ch})
+						scens = append(scens, scenario{"refuse-" + strings.SplitN(ch, ":", 2)[0], cfg, k, 0, 0, ch})
 					}
 				}
 			}
